@@ -377,6 +377,8 @@ type deserOp struct {
 	name  string
 	write func(se *serializer.Serializer) (marks []mark) // marks relative to the op's start
 	read  func(d *serializer.Deserializer)
+	// the reader's own rules turn the un-faulted encoding down: an error is the expected answer
+	rejects bool
 }
 
 var seriLen = []serializer.SeriLengthPrefixType{serializer.SeriLengthPrefixTypeAsByte, serializer.SeriLengthPrefixTypeAsUint16, serializer.SeriLengthPrefixTypeAsUint32}
@@ -404,43 +406,43 @@ func genDeserOp(s *simrt.Sim, first bool) deserOp {
 	switch pick {
 	case 0:
 		x := uint16(genBits(s, 16))
-		return deserOp{"ReadNum[uint16]", func(se *serializer.Serializer) []mark { se.WriteNum(x, passErr); return nil },
-			func(d *serializer.Deserializer) { var v uint16; d.ReadNum(&v, passErr) }}
+		return deserOp{name: "ReadNum[uint16]", write: func(se *serializer.Serializer) []mark { se.WriteNum(x, passErr); return nil },
+			read: func(d *serializer.Deserializer) { var v uint16; d.ReadNum(&v, passErr) }}
 	case 1:
 		x := genBits(s, 64)
-		return deserOp{"ReadNum[uint64]", func(se *serializer.Serializer) []mark { se.WriteNum(x, passErr); return nil },
-			func(d *serializer.Deserializer) { var v uint64; d.ReadNum(&v, passErr) }}
+		return deserOp{name: "ReadNum[uint64]", write: func(se *serializer.Serializer) []mark { se.WriteNum(x, passErr); return nil },
+			read: func(d *serializer.Deserializer) { var v uint64; d.ReadNum(&v, passErr) }}
 	case 2:
 		x := float32(genBits(s, 16))
-		return deserOp{"ReadNum[float32]", func(se *serializer.Serializer) []mark { se.WriteNum(x, passErr); return nil },
-			func(d *serializer.Deserializer) { var v float32; d.ReadNum(&v, passErr) }}
+		return deserOp{name: "ReadNum[float32]", write: func(se *serializer.Serializer) []mark { se.WriteNum(x, passErr); return nil },
+			read: func(d *serializer.Deserializer) { var v float32; d.ReadNum(&v, passErr) }}
 	case 3:
 		x := s.Choose(2) == 1
-		return deserOp{"ReadBool", func(se *serializer.Serializer) []mark {
+		return deserOp{name: "ReadBool", write: func(se *serializer.Serializer) []mark {
 			se.WriteBool(x, passErr)
 			return []mark{{off: 0, w: 1, kind: "bool"}}
 		},
-			func(d *serializer.Deserializer) { var v bool; d.ReadBool(&v, passErr) }}
+			read: func(d *serializer.Deserializer) { var v bool; d.ReadBool(&v, passErr) }}
 	case 4:
 		x := byte(genBits(s, 8))
-		return deserOp{"ReadByte", func(se *serializer.Serializer) []mark { se.WriteByte(x, passErr); return nil },
-			func(d *serializer.Deserializer) { var v byte; d.ReadByte(&v, passErr) }}
+		return deserOp{name: "ReadByte", write: func(se *serializer.Serializer) []mark { se.WriteByte(x, passErr); return nil },
+			read: func(d *serializer.Deserializer) { var v byte; d.ReadByte(&v, passErr) }}
 	case 5:
 		x := leBigInt(genRawBytes(s, 32))
-		return deserOp{"ReadUint256", func(se *serializer.Serializer) []mark { se.WriteUint256(x, passErr); return nil },
-			func(d *serializer.Deserializer) { var v *big.Int; d.ReadUint256(&v, passErr) }}
+		return deserOp{name: "ReadUint256", write: func(se *serializer.Serializer) []mark { se.WriteUint256(x, passErr); return nil },
+			read: func(d *serializer.Deserializer) { var v *big.Int; d.ReadUint256(&v, passErr) }}
 	case 6:
 		x := time.Unix(0, int64(genBits(s, 63))).UTC()
-		return deserOp{"ReadTime", func(se *serializer.Serializer) []mark { se.WriteTime(x, passErr); return nil },
-			func(d *serializer.Deserializer) { var v time.Time; d.ReadTime(&v, passErr) }}
+		return deserOp{name: "ReadTime", write: func(se *serializer.Serializer) []mark { se.WriteTime(x, passErr); return nil },
+			read: func(d *serializer.Deserializer) { var v time.Time; d.ReadTime(&v, passErr) }}
 	case 7:
 		x := genRawBytes(s, s.Choose(9))
-		return deserOp{"ReadBytes", func(se *serializer.Serializer) []mark { se.WriteBytes(x, passErr); return nil },
-			func(d *serializer.Deserializer) { var v []byte; d.ReadBytes(&v, len(x), passErr) }}
+		return deserOp{name: "ReadBytes", write: func(se *serializer.Serializer) []mark { se.WriteBytes(x, passErr); return nil },
+			read: func(d *serializer.Deserializer) { var v []byte; d.ReadBytes(&v, len(x), passErr) }}
 	case 8:
 		x := genRawBytes(s, s.Choose(9))
-		return deserOp{"ReadBytesInPlace", func(se *serializer.Serializer) []mark { se.WriteBytes(x, passErr); return nil },
-			func(d *serializer.Deserializer) { d.ReadBytesInPlace(make([]byte, len(x)), passErr) }}
+		return deserOp{name: "ReadBytesInPlace", write: func(se *serializer.Serializer) []mark { se.WriteBytes(x, passErr); return nil },
+			read: func(d *serializer.Deserializer) { d.ReadBytesInPlace(make([]byte, len(x)), passErr) }}
 	case 9:
 		w := s.Choose(3)
 		x := genRawBytes(s, s.Choose(9))
@@ -448,10 +450,10 @@ func genDeserOp(s *simrt.Sim, first bool) deserOp {
 		if s.Choose(2) == 1 {
 			maxL = 16
 		}
-		return deserOp{"ReadVariableByteSlice", func(se *serializer.Serializer) []mark {
+		return deserOp{name: "ReadVariableByteSlice", write: func(se *serializer.Serializer) []mark {
 			se.WriteVariableByteSlice(x, seriLen[w], passErr, minL, maxL)
 			return []mark{{0, 1 << w, "len", true}}
-		}, func(d *serializer.Deserializer) {
+		}, read: func(d *serializer.Deserializer) {
 			var v []byte
 			d.ReadVariableByteSlice(&v, seriLen[w], passErr, minL, maxL)
 		}}
@@ -462,17 +464,17 @@ func genDeserOp(s *simrt.Sim, first bool) deserOp {
 		if s.Choose(2) == 1 {
 			maxL = 16
 		}
-		return deserOp{"ReadString", func(se *serializer.Serializer) []mark {
+		return deserOp{name: "ReadString", write: func(se *serializer.Serializer) []mark {
 			se.WriteString(x, seriLen[w], passErr, minL, maxL)
 			return []mark{{off: 0, w: 1 << w, kind: "len"}}
-		}, func(d *serializer.Deserializer) { var v string; d.ReadString(&v, seriLen[w], passErr, minL, maxL) }}
+		}, read: func(d *serializer.Deserializer) { var v string; d.ReadString(&v, seriLen[w], passErr, minL, maxL) }}
 	case 11:
 		x := s.Choose(70000)
-		return deserOp{"ReadPayloadLength", func(se *serializer.Serializer) []mark {
+		return deserOp{name: "ReadPayloadLength", write: func(se *serializer.Serializer) []mark {
 			se.WritePayloadLength(x, passErr)
 			return []mark{{off: 0, w: 4, kind: "len"}}
 		},
-			func(d *serializer.Deserializer) { _, _ = d.ReadPayloadLength() }}
+			read: func(d *serializer.Deserializer) { _, _ = d.ReadPayloadLength() }}
 	case 12:
 		w := s.Choose(3)
 		cnt := s.Choose(4)
@@ -481,16 +483,22 @@ func genDeserOp(s *simrt.Sim, first bool) deserOp {
 			data = append(data, []byte{byte(i), byte(genBits(s, 8))})
 		}
 		rules := &serializer.ArrayRules{Max: 8, ValidationMode: serializer.ArrayValidationModeLexicalOrdering | serializer.ArrayValidationModeNoDuplicates}
-		return deserOp{"ReadSequenceOfObjects", func(se *serializer.Serializer) []mark {
+		// the reader may come with a type-uniqueness rule on top (elements of two bytes are shorter than a uint32 type
+		// denotation: with validation the rule has to turn them down with an error)
+		readRules := *rules
+		extra := []serializer.ArrayValidationMode{0, 0, serializer.ArrayValidationModeAtMostOneOfEachTypeByte, serializer.ArrayValidationModeAtMostOneOfEachTypeUint32}[s.Choose(4)]
+		readRules.ValidationMode |= extra
+		rejects := extra == serializer.ArrayValidationModeAtMostOneOfEachTypeUint32 && cnt > 0 && mode == serializer.DeSeriModePerformValidation
+		return deserOp{name: "ReadSequenceOfObjects", rejects: rejects, write: func(se *serializer.Serializer) []mark {
 			se.WriteSliceOfByteSlices(data, mode, seriLen[w], rules, passErr)
 			return []mark{{off: 0, w: 1 << w, kind: "count"}}
-		}, func(d *serializer.Deserializer) {
+		}, read: func(d *serializer.Deserializer) {
 			d.ReadSequenceOfObjects(func(b []byte) (int, error) {
 				if len(b) < 2 {
 					return 0, serializer.ErrDeserializationNotEnoughData
 				}
 				return 2, nil
-			}, mode, seriLen[w], rules, passErr)
+			}, mode, seriLen[w], &readRules, passErr)
 		}}
 	case 13:
 		w := s.Choose(3)
@@ -512,14 +520,14 @@ func genDeserOp(s *simrt.Sim, first bool) deserOp {
 		if den == serializer.TypeDenotationByte {
 			tw = 1
 		}
-		return deserOp{"ReadSliceOfObjects", func(se *serializer.Serializer) []mark {
+		return deserOp{name: "ReadSliceOfObjects", write: func(se *serializer.Serializer) []mark {
 			se.WriteSliceOfObjects(seris, serializer.DeSeriModeNoValidation, nil, seriLen[w], rules, passErr)
 			ms := []mark{{off: 0, w: 1 << w, kind: "count"}}
 			for i := 0; i < cnt; i++ {
 				ms = append(ms, mark{off: 1<<w + i*(tw+2), w: tw, kind: "code"})
 			}
 			return ms
-		}, func(d *serializer.Deserializer) {
+		}, read: func(d *serializer.Deserializer) {
 			d.ReadSliceOfObjects(func(serializer.Serializables) {}, mode, nil, seriLen[w], den, rules, passErr)
 		}}
 	case 14:
@@ -529,10 +537,10 @@ func genDeserOp(s *simrt.Sim, first bool) deserOp {
 		if den == serializer.TypeDenotationByte {
 			tw = 1
 		}
-		return deserOp{"ReadObject", func(se *serializer.Serializer) []mark {
+		return deserOp{name: "ReadObject", write: func(se *serializer.Serializer) []mark {
 			se.WriteObject(t, serializer.DeSeriModeNoValidation, nil, nil, passErr)
 			return []mark{{off: 0, w: tw, kind: "code"}}
-		}, func(d *serializer.Deserializer) {
+		}, read: func(d *serializer.Deserializer) {
 			var out serializer.Serializable
 			d.ReadObject(&out, mode, nil, den, tinySel(den), passErr)
 		}}
@@ -541,20 +549,20 @@ func genDeserOp(s *simrt.Sim, first bool) deserOp {
 		if s.Choose(3) > 0 {
 			t = &tinySeri{den: serializer.TypeDenotationUint32, ty: 8, v: uint16(genBits(s, 16))}
 		}
-		return deserOp{"ReadPayload", func(se *serializer.Serializer) []mark {
+		return deserOp{name: "ReadPayload", write: func(se *serializer.Serializer) []mark {
 			se.WritePayload(t, serializer.DeSeriModeNoValidation, nil, nil, passErr)
 			if t == nil {
 				return []mark{{off: 0, w: 4, kind: "len"}}
 			}
 			return []mark{{off: 0, w: 4, kind: "len"}, {off: 4, w: 4, kind: "code"}}
-		}, func(d *serializer.Deserializer) {
+		}, read: func(d *serializer.Deserializer) {
 			var out serializer.Serializable
 			d.ReadPayload(&out, mode, nil, tinySel(serializer.TypeDenotationUint32), passErr)
 		}}
 	default:
 		x := genRawBytes(s, s.Choose(6))
-		return deserOp{"Skip", func(se *serializer.Serializer) []mark { se.WriteBytes(x, passErr); return nil },
-			func(d *serializer.Deserializer) { d.Skip(len(x), passErr) }}
+		return deserOp{name: "Skip", write: func(se *serializer.Serializer) []mark { se.WriteBytes(x, passErr); return nil },
+			read: func(d *serializer.Deserializer) { d.Skip(len(x), passErr) }}
 	}
 }
 
@@ -595,7 +603,12 @@ func faultDeserBody(s *simrt.Sim) {
 		}
 	}
 	n, ok := probe(s, &fr.st, fr.target, "none", "unfaulted", data, true, call(data))
-	if !ok || n != len(data) {
+	if ops[0].rejects {
+		s.Probe("reader-rules-turn-the-unfaulted-encoding-down")
+		if ok {
+			s.Fail("deser-validation", "Deserializer:"+ops[0].name+":accepts-what-its-rules-forbid", "reading an un-faulted sequence of 2-byte elements under a uint32 type-uniqueness rule with validation succeeded")
+		}
+	} else if !ok || n != len(data) {
 		s.Fail("deser-roundtrip", "Deserializer:"+ops[0].name, "reading back an unfaulted Serializer output returned n=%d ok=%v (len %d)", n, ok, len(data))
 	}
 	forEachFault(s, fr.class, data, marks, fr.huge, func(in []byte, kind, desc string) {
